@@ -51,6 +51,31 @@ theorem C17_normal (P : Placement K) (p0 p1 p2 w : V3 K) :
     (((place P p1).sub (place P p0)).cross ((place P p2).sub (place P p0))).dot (rot P.R w)
       = P.R.det * (((p1.sub p0).cross (p2.sub p0)).dot w) := normal_place P p0 p1 p2 w
 
+/-- **Displacement vectors / directions** (`vert.normal`, `vert.offset`, `vert.offset_norm`, as
+coded in `Side.localise`) are rotated without the offset, `placeDir P v = v·R`, and that composes
+like the positions do. -/
+theorem C17_dir_compose (P₁ P₂ : Placement K) (v : V3 K) :
+    placeDir P₂ (placeDir P₁ v) = placeDir (P₁.comp P₂) v ∧ placeDir Placement.id v = v :=
+  ⟨placeDir_comp P₁ P₂ v, placeDir_id v⟩
+
+/-- A direction is a difference of positions: placing both ends, the origin cancels. -/
+theorem C17_dir_diff (P : Placement K) (a b : V3 K) :
+    (place P a).sub (place P b) = placeDir P (a.sub b) := place_sub P a b
+
+/-- The whole displacement record (`disp_pos` placed, every vertex's three vectors rotated,
+distances/alphas kept) composes, and the identity placement leaves it alone. -/
+theorem C17_disp_compose (P₁ P₂ : Placement K) (d : Disp K) :
+    Disp.localise P₂ (Disp.localise P₁ d) = Disp.localise (P₁.comp P₂) d ∧
+    Disp.localise Placement.id d = d :=
+  ⟨Disp.localise_comp P₁ P₂ d, Disp.localise_id d⟩
+
+/-- **The displaced surface moves with the brush**: the world position of a displaced vertex,
+`base + distance·normal + offset + elevation·offset_normal`, computed from the localised vertex at
+the placed base point, is the placed original position. -/
+theorem C17_disp_vertex (P : Placement K) (d : DispVert K) (elev : K) (base : V3 K) :
+    (DispVert.localise P d).point elev (place P base) = place P (d.point elev base) :=
+  dispPoint_place P d elev base
+
 /-- Distances/angles are preserved by the instance rotation. -/
 theorem C17_dot (R : M3 K) (h : Orth R) (p q : V3 K) : (rot R p).dot (rot R q) = p.dot q :=
   dot_rot h p q
@@ -392,6 +417,14 @@ example :
   · unfold Orth; decide +kernel
   · decide +kernel
   · decide +kernel
+
+/-- A tilted displacement vertex under the same rotation: the normal turns, the distance stays. -/
+example :
+    let P : Placement Rat := ⟨⟨3/5, 4/5, 0, -4/5, 3/5, 0, 0, 0, 1⟩, ⟨10, -20, 30⟩⟩
+    let d : DispVert Rat := ⟨⟨1, 0, 0⟩, ⟨0, 5, 1⟩, ⟨0, 0, 1⟩, 8, 255⟩
+    (DispVert.localise P d).normal = ⟨3/5, 4/5, 0⟩ ∧ (DispVert.localise P d).offset = ⟨-4, 3, 1⟩ ∧
+    (DispVert.localise P d).distance = 8 := by
+  refine ⟨?_, ?_, ?_⟩ <;> decide +kernel
 
 example : Trig.Unit (⟨3/5, 4/5, 0, 1, 1, 0⟩ : Trig Rat) := by
   refine ⟨?_, ?_, ?_⟩ <;> decide +kernel
